@@ -10,7 +10,7 @@ gvars == <<vars, hist>>
 GView == vars
 H(o, n) == hist' = Append(hist, [o |-> o, n |-> n])
 XListen(X) == [X EXCEPT !.lis = "up"]
-WarmState(X0) == DoPass(Clr(XStart(Clr(XListen(Clr(XInit(Clr(X0))))))))
+WarmState(X0) == [DoPass(Clr(XStart(Clr(XListen(Clr(XInit(Clr(X0)))))))) EXCEPT !.r = 0]
 WarmHist == <<[o |-> "init", n |-> 0], [o |-> "listen", n |-> 0], [o |-> "start", n |-> 0], [o |-> "pass", n |-> 0]>>
 GInit == /\ \E k \in Kinds, f \in Fams, w \in Warm : \E c \in Cfgs(k) :
               /\ Cardinality({x \in DOMAIN c.arm : c.arm[x] # "none"}) <= MaxArms      \* callbacks that call the API
